@@ -65,7 +65,7 @@ ASSUMPTIONS = [
 ] + dyncommon.ASSUMPTIONS[:1]
 
 FEAT = dict(
-    w_try=3, p_guards=2, p_grej=1, w_override=3, p_recordprop=5, p_fault_stmt=2, ftab=True,
+    w_try=3, p_guards=2, p_grej=1, w_override=3, override_behavior=True, p_recordprop=5, p_fault_stmt=2, ftab=True,
     p_spec_fault=3, p_require_setup=3, n_subscenarios=(0, 2), n_monitors=(0, 1), n_agents=(1, 2),
     n_behaviors=(1, 3), depth=2, block_len=(1, 3), max_steps=(2, 6), compose_try_waits_only=True,
     p_ltl=1, p_sub_setup_reqs=3, modular=3, flat=1,
@@ -512,7 +512,7 @@ def _run(tape, helper_dir):
     stats = {"histories": 0, "programs": 2}
     violations = []
 
-    counted = forked(child_count, progs, envs, "P1", seed_a, 0, rg, True)
+    counted = forked(child_count, progs, envs, "P1", seed_a, 0, rg, not prog1.get("has_behavior_override"))
     stats["golden_runs"] = 1
     j = counted.get("judge")
     if j:
@@ -542,7 +542,7 @@ def _run(tape, helper_dir):
     seed_b = seed_a + 1 + tape.draw(3, "seed.b")
     seed_c = tape.intrange(0, 3, "seed.c")
     for _ in range(nf):
-        k = tape.draw(9, "follow.kind")
+        k = tape.weighted([1, 1, 1, 1, 1, 1, 3 if helper_dir else 1, 1, 1], "follow.kind")
         if k == 0:
             follow.append(("simulate", "P1", seed_a, 0, None, rg))
         elif k == 1:
@@ -561,6 +561,9 @@ def _run(tape, helper_dir):
             if helper_dir and tape.chance(2, 3, "compile.fault?"):
                 cf = [tape.choice(["toplevel", "model"], "compile.site"), 1, tape.choice(EXC, "compile.exc")]
             follow.append(("compile", "P1", cf))
+            if cf:
+                # a failed compile must not influence the next compile of the same program
+                follow.append(("compile", "P1", None))
         elif k == 7:
             follow.append(("roundtrip", "P1", seed_a, 0))
         else:
